@@ -88,6 +88,9 @@ def gen_case(rng, k, consts):
         c["mu"] = dy(rng, -0.6, 0.1, 16)
         if extreme:
             c["mu"] = dy(rng, -50, 50, 8)
+        r2 = random.Random(k * 7919 + 13)
+        if c["N"] >= 3 and r2.random() < 0.5:
+            c["history"] = r2.randint(1, min(3, c["N"]))      # the count is the simulation's own, after accepted insertions through the real driver
     return c
 
 
@@ -231,6 +234,9 @@ def run(res: C.Result):
             res.fail(f"{c['crit']}:{sig}", f"criteria.evaluate raised {r['raised']} (finite inputs)", {"input": c, "observed": r})
             continue
         dist["verdicts"]["accept" if r["verdict"] else "reject"] += 1
+        if c.get("history") and r.get("N_after_history") != c["N"]:
+            res.fail("gc:particle-count-after-accepted-insertions", f"after {c['history']} accepted insertions of {c['species']} into a simulation that started with {c['N'] - c['history']} particles the "
+                     f"criteria reads N = {r.get('N_after_history')} (expected {c['N']})", {"input": c, "observed": {x: r.get(x) for x in ("N_after_history", "natoms_after_history")}})
         if r.get("params_changed"):
             res.fail(f"{c['crit']}:parameters-changed-by-evaluate", f"criteria.evaluate changed the simulation's {r['params_changed']}: the next trial is judged with other parameters than the user set",
                      {"input": c, "observed": {x: r.get(x) for x in ("params_changed", "verdict", "verdict_again")}})
